@@ -30,6 +30,13 @@ pub fn make_file_logger(path: &str) -> std::io::Result<&'static impl Log> {
     LOGGER.get_or_try_init(|| FileLogger::new(path))
 }
 
+/// At trace level the TLS library prints the handshake messages it receives, the requested
+/// server name included, and that name may start with a client's credentials
+/// (see [`crate::net_utils::scrub_sni`]): such records are not written
+fn is_handshake_dump(metadata: &Metadata) -> bool {
+    metadata.level() == log::Level::Trace && metadata.target().starts_with("rustls::server")
+}
+
 fn write_record(mut w: impl Write, record: &Record) -> std::io::Result<()> {
     writeln!(
         w,
@@ -44,7 +51,7 @@ fn write_record(mut w: impl Write, record: &Record) -> std::io::Result<()> {
 
 impl Log for StdoutLogger {
     fn enabled(&self, metadata: &Metadata) -> bool {
-        metadata.level() <= log::max_level()
+        metadata.level() <= log::max_level() && !is_handshake_dump(metadata)
     }
 
     fn log(&self, record: &Record) {
@@ -72,7 +79,7 @@ impl FileLogger {
 
 impl Log for FileLogger {
     fn enabled(&self, metadata: &Metadata) -> bool {
-        metadata.level() <= log::max_level()
+        metadata.level() <= log::max_level() && !is_handshake_dump(metadata)
     }
 
     fn log(&self, record: &Record) {
